@@ -401,7 +401,7 @@ Proof.
   intros K a b s H. unfold uid_lt, uid_lt_with, uid_is_primary, uid_is_primary_with. rewrite (noncert_keeps_effective K a s H). simpl. repeat split.
 Qed.
 
-(* ---------- PGPKey.parse after repair bf7dbf5 ---------- *)
+(* ---------- PGPKey.parse after repair bf7dbf5 and the orphan repair ---------- *)
 (* an opaque primary key packet and everything after it up to the next understood primary key packet leaves no trace *)
 Lemma drop_skipped_true_nokey : forall gs, (forall g, In g gs -> match fst g with PKey true _ _ _ => False | _ => True end) ->
   drop_skipped true gs = [].
@@ -409,5 +409,54 @@ Proof.
   induction gs as [|[h ss] r IH]; intros H; [reflexivity|]. cbn [drop_skipped].
   pose proof (H (h, ss) (or_introl eq_refl)) as Hh. cbn [fst] in Hh.
   assert (Hr : drop_skipped true r = []) by (apply IH; intros g Hg; apply H; right; exact Hg).
-  destruct h as [prim pub cs l|isu c|s| |st id|id]; try exact Hr. destruct prim; [contradiction|exact Hr].
+  destruct h as [prim pub cs l|isu c|s| |st id|id|id]; try exact Hr. destruct prim; [contradiction|exact Hr].
+Qed.
+
+(* signatures before the first non-signature packet are set aside: they change nothing *)
+Theorem leading_signatures_ignored : forall ss ps, forallb is_sigpkt ss = true -> import (ss ++ ps) = import ps.
+Proof.
+  intros ss ps H. unfold import, import_with. rewrite filter_app.
+  assert (Hf : forallb is_sigpkt (filter not_trust ss) = true).
+  { apply forallb_forall. intros x Hx. apply filter_In in Hx. destruct Hx as [Hx _]. exact (proj1 (forallb_forall _ _) H x Hx). }
+  rewrite (groups_sig_app _ _ Hf). destruct (groups (filter not_trust ps)) as [lead gs]. reflexivity.
+Qed.
+
+(* the groups of a ++ rest when rest does not begin with signatures: those of a, then those of rest *)
+Lemma groups_app_nolead : forall a rest, fst (groups rest) = [] ->
+  groups (a ++ rest) = (fst (groups a), snd (groups a) ++ snd (groups rest)).
+Proof.
+  induction a as [|p a IH]; intros rest Hr.
+  - cbn [app groups fst snd]. destruct (groups rest) as [l g]. cbn in *. subst. reflexivity.
+  - cbn [app groups]. rewrite (IH rest Hr). destruct (groups a) as [la ga]. cbn [fst snd].
+    destruct (is_sigpkt p); reflexivity.
+Qed.
+
+(* a stray packet with the signatures grouped with it is invisible to the skipping pass, wherever it stands *)
+Lemma drop_skipped_stray : forall ga b id ss gb, drop_skipped b (ga ++ (PStray id, ss) :: gb) = drop_skipped b (ga ++ gb).
+Proof.
+  induction ga as [|[h hs] ga IH]; intros b id ss gb; [reflexivity|]. cbn [app drop_skipped].
+  destruct h as [prim pub cs l|isu c|s| |st i|i|i]; try (rewrite !IH; reflexivity); try (destruct b; rewrite !IH; reflexivity).
+Qed.
+
+(* the repaired parse: a stray packet and the signatures that follow it, put in front of, between or after the packets of the keys
+   (anywhere but in front of signatures, which would then be the stray packet's instead of the previous component's), change nothing *)
+Theorem stray_packets_do_not_disturb : forall a id ss b, forallb is_sigpkt ss = true -> fst (groups (filter not_trust b)) = [] ->
+  import (a ++ PStray id :: ss ++ b) = import (a ++ b).
+Proof.
+  intros a id ss b Hs Hb. unfold import, import_with. rewrite !filter_app. cbn [filter not_trust]. rewrite filter_app.
+  assert (Hf : forallb is_sigpkt (filter not_trust ss) = true).
+  { apply forallb_forall. intros x Hx. apply filter_In in Hx. destruct Hx as [Hx _]. exact (proj1 (forallb_forall _ _) Hs x Hx). }
+  set (fa := filter not_trust a). set (fb := filter not_trust b) in *. set (fs := filter not_trust ss) in *.
+  assert (Hx : groups (PStray id :: fs ++ fb) = ([], (PStray id, fs) :: snd (groups fb))).
+  { cbn [groups]. rewrite (groups_sig_app _ fb Hf). rewrite Hb, app_nil_r. reflexivity. }
+  rewrite (groups_app_nolead fa (PStray id :: fs ++ fb)) by (rewrite Hx; reflexivity).
+  rewrite (groups_app_nolead fa fb Hb). rewrite Hx. cbn [snd]. rewrite drop_skipped_stray. reflexivity.
+Qed.
+
+(* the same for whole group lists: removing every stray group changes nothing *)
+Definition stray_group (g : packet * list packet) : bool := match fst g with PStray _ => true | _ => false end.
+Lemma drop_skipped_filter_stray : forall gs b, drop_skipped b (filter (fun g => negb (stray_group g)) gs) = drop_skipped b gs.
+Proof.
+  induction gs as [|[h ss] r IH]; intros b; [reflexivity|]. cbn [filter].
+  destruct h as [prim pub cs l|isu c|s| |st i|i|i]; cbn [stray_group fst negb drop_skipped]; rewrite ?IH; try reflexivity.
 Qed.
